@@ -46,6 +46,9 @@ def _configs(thorough):
             cfgs.append(("json", b, hc))
     for hc in subsets:
         cfgs.append(("sqlite", 0, hc))
+    # the database file exists already but holds no table yet (created by `touch`, a crashed first run,
+    # a second history object of the same thread)
+    cfgs.append(("sqlite-pre", 0, ()))
     return cfgs
 
 
@@ -78,6 +81,8 @@ class Harness:
         else:
             from xonsh.history.sqlite import SqliteHistory
 
+            if self.backend == "sqlite-pre":
+                open(os.path.join(d, "hist.sqlite"), "w").close()
             self.h = SqliteHistory(gc=False, filename=os.path.join(d, "hist.sqlite"), sessionid="sess", save_cwd=False)
         self.appended = []  # since last clear: dict(text, rtn, ts, spc)
         self.everything = []  # all appends of this history, across clears
@@ -113,7 +118,7 @@ class Harness:
 
     # ------------------------------------------------------------ oracle
     def norm(self, s):
-        return s.rstrip() if self.backend == "sqlite" else s
+        return s.rstrip() if self.backend.startswith("sqlite") else s
 
     def excludable(self, i):
         e = self.appended[i]
